@@ -86,6 +86,8 @@ pub struct Cfg {
     pub inject_kind_pm: u64,
     /// size of the injected datagram (0 = cycle through the boundary sizes)
     pub inject_size: usize,
+    /// strays per network round (each delivered one microsecond after the previous one)
+    pub inject_burst: u64,
     /// how many leading bytes of each datagram are recorded in `wire` lines
     pub wire_head: usize,
     /// enable stateless resets on the server (keyed token generator); off = s2n-quic default
@@ -131,6 +133,7 @@ impl Default for Cfg {
             inject_kind: String::new(),
             inject_kind_pm: 0,
             inject_size: 0,
+            inject_burst: 1,
             wire_head: 48,
             sreset: false,
         }
@@ -217,6 +220,7 @@ impl Cfg {
                 "inject_kind" => c.inject_kind = v.to_string(),
                 "inject_kind_pm" => c.inject_kind_pm = n()?,
                 "inject_size" => c.inject_size = n()? as usize,
+                "inject_burst" => c.inject_burst = n()?,
                 "wire_head" => c.wire_head = n()? as usize,
                 "sreset" => c.sreset = n()? != 0,
                 _ => return Err(format!("unknown key {k}")),
